@@ -164,6 +164,17 @@ CHECKS["C15"] = dict(
          "PANIC / non-RuntimeError traceback / status 0 on rejection).",
     design="§6 C15", technique="Lean 4 proof (internal-error branches unreachable under the parser's arity contract; partial) + error-class correspondence + near-valid grammar search")
 
+CHECKS["C14"] = dict(
+    text="Theorems (Lean 4): sorted_iteration_independent — whatever order a hash-ordered container yields its elements in (any "
+         "permutation), sorting by a total order gives one list, which is why future_sigs and the bridge rules (sorted(...) over the "
+         "set of future predicates) do not depend on the hash seed; the model of the translation is a pure function of the program "
+         "(parts_function_of_rules, future_function_of_rules), so independence of earlier or interleaved runs holds by construction.  "
+         "PARTIAL: CPython hash randomisation, module state and re-entrancy cannot be exhibited by the model; they are exercised on "
+         "the real code: PYTHONHASHSEED ∈ {0,1,2,3,12345,…} in subprocesses, repeated / interleaved / re-entrant translations and "
+         "solving runs in one process — statements, future_sigs, parts and answer sets identical — on programs with several future "
+         "predicates (names, arities, signs, depths), head formulas with variables, body formulas.",
+    design="§6 C14", technique="Lean 4 proof (sorting makes set iteration order irrelevant; model is a pure function; partial) + perturbation runs of the real code")
+
 NOT_YET = {}
 
 def main():
